@@ -239,6 +239,36 @@ def stepDecB (which : String) (dflt : Style) (h : String) (table : String) (impl
     s!"{m}\t{impl}\t{if impl = "panic" then "FAIL panic" else "ok"}"
   | _, _ => "bad-op\tbad-op\tbad-op"
 
+/-! ### cells with hyperlinks -/
+
+/-- `hex(g)/style/hex(url)/hex(params)` -/
+def parseLCell? (t : String) : Option (Cell G × String × String) :=
+  match t.splitOn "/" with
+  | [g, st, url, ps] => (parseStyle? st).map (fun s => (⟨g, s⟩, url, ps))
+  | _ => none
+
+/-- Hyperlinks are not in the model's `Style`: the model predicts graphemes and the modelled style fields (both sides are
+    printed without the links); the oracle is on the implementation's cells: `ParseStyledString` must return the same
+    graphemes, colours, attributes, underline (it drops hyperlinks, which the property does not list); `NewStyledString`
+    must return the cells unchanged, hyperlink and its parameters included. -/
+def stepRtl (which : String) (lcells : List (Cell G × String × String)) (impl : String) : String :=
+  let cells := lcells.map Prod.fst
+  let mc := modelRt false which cells
+  let back : Option (List (Cell G × String × String)) := if impl = "-" then some [] else (fields impl).mapM parseLCell?
+  let ic := match back with
+    | some b => cellsStr (b.map Prod.fst)
+    | none => impl
+  let verdict :=
+    if impl = "panic" then "FAIL panic"
+    else if !(cells.all fun c => wfB c.st && c.g ≠ "-") then "-"
+    else match back with
+      | none => s!"FAIL unparsable cells {impl}"
+      | some b =>
+        if b.map Prod.fst ≠ cells then s!"FAIL round trip with hyperlinks changed graphemes or styles: {ic}"
+        else if which = "ss" ∧ b ≠ lcells then s!"FAIL hyperlinks not restored: {impl}"
+        else "ok"
+  s!"{mc}\t{ic}\t{verdict}"
+
 def step (line : String) : String :=
   let (op, impl) := splitTab line
   match fields op with
@@ -257,6 +287,10 @@ def step (line : String) : String :=
   | ["decb", which, dflt, h, table] =>
     match parseStyle? dflt with
     | some dflt => stepDecB which dflt h table impl
+    | none => "bad-op\tbad-op\tbad-op"
+  | "rtl" :: which :: cells =>
+    match cells.mapM parseLCell? with
+    | some lcells => stepRtl which lcells impl
     | none => "bad-op\tbad-op\tbad-op"
   | "rt" :: which :: cells =>
     match cells.mapM parseCell? with
